@@ -75,6 +75,12 @@ def _case(rng, fam, gseed, cfgd):
         case["fmt"] = str(rng.choice(["dia", "diaj", "bsr", "lil", "dok"]))
         if rng.random() < 0.3 and fam in ("QP", "NLP"):
             case["gopts"] = dict(case.get("gopts", {}), row_force=["eq"] * 12)
+    if fam == "DEG" and rng.random() < 0.25:
+        # an equality row with an all-zero Jacobian, handed over unconverted (no scaling, no slack) in any format
+        case["gopts"] = {"variant": 6}
+        cfgd["scaling"] = "none"
+        case["fmt"] = str(rng.choice(["dia", "diaj", "bsr", "lil", "dok", "coo", "csr", "csc"]))
+        case["zero_jac_eq"] = True
     if fam in ("QP", "NLP") and "gopts" not in case and rng.random() < 0.1:
         case["gopts"] = {"row_force": ["free"]}   # a row without any bound
     return case
@@ -149,6 +155,8 @@ def run_case(case):
         res["ctr"]["%s_%s" % (ax, c[ax])] = 1
     res["ctr"]["log_" + case.get("log", "CRITICAL")] = 1
     res["ctr"]["fmt_" + p.fmt] = 1
+    if case.get("zero_jac_eq"):
+        res["ctr"]["zero_jacobian_equality_fmt_" + p.fmt] = 1
     if case["cfg"].get("report_rcond"):
         res["ctr"]["report_rcond_on"] = 1
     ntrials = len(out.trace.trials)
@@ -170,7 +178,7 @@ def finalize(agg, tier):
                 "distinct by spec seed",
         "floors": {"outcome_status:Optimal": 200, "log_DEBUG": 100, "report_rcond_on": 100,
                    "outcome_raise:lamb_max": 5, "newton_Globalized": 50, "linear_MINRES": 10,
-                   "penalty_LagrangianFilter": 50, "family_NCVX": 50, "fmt_dia": 20, "fmt_bsr": 20},
+                   "penalty_LagrangianFilter": 50, "family_NCVX": 50, "fmt_dia": 20, "fmt_bsr": 20, "zero_jacobian_equality_fmt_dia": 3},
         "assumptions": ["exceptions raised while constructing the Solver (scaling computation) are counted, not judged: "
                         "the property speaks about solve()",
                         "deliberate failures are recognised by type Exception and message prefix, DerivError by type"],
